@@ -7,7 +7,7 @@ use std::io::Write as _;
 use std::process::{Command as Proc, Stdio};
 use vcore::*;
 use vmodel::gen::{gen_broad, GenOpts};
-use vmodel::{build_checked, Built, CmdSpec};
+use vmodel::{build_checked, ArgSpec, Built, CmdSpec};
 
 #[derive(Serialize, Deserialize, Hash, Clone, Debug)]
 pub struct ScriptCase {
@@ -574,6 +574,29 @@ impl Property for Scripts {
         };
         let mut built = cmd.clone();
         built.build();
+        // the expectations below are read from the built tree: make sure it holds what the description says it must
+        // (every global argument of an ancestor, unless the level or one in between declares that id itself)
+        fn globals_reach(level: &CmdSpec, built: &clap::Command, carry: &[&ArgSpec], path: &mut Vec<String>) -> Result<(), String> {
+            let own: Vec<&str> = level.args.iter().map(|a| a.id.as_str()).collect();
+            let mut down: Vec<&ArgSpec> = carry.iter().copied().filter(|g| !own.contains(&g.id.as_str())).collect();
+            for g in &down {
+                if !built.get_arguments().any(|a| a.get_id().as_str() == g.id) {
+                    return Err(format!("level {:?} lacks the global argument {:?} declared above it", path, g.id));
+                }
+            }
+            down.extend(level.args.iter().filter(|a| a.global));
+            for sc in &level.subs {
+                if let Some(b) = built.find_subcommand(&sc.name) {
+                    path.push(sc.name.clone());
+                    globals_reach(sc, b, &down, path)?;
+                    path.pop();
+                }
+            }
+            Ok(())
+        }
+        if let Err(why) = globals_reach(&case.spec, &built, &[], &mut Vec::new()) {
+            return Verdict::fail("scripts:global-argument-not-propagated", format!("the built command tree the scripts are generated from: {why}"));
+        }
         let mut levels = Vec::new();
         collect_levels(&built, &mut Vec::new(), &mut levels);
         let has_dbl = levels.iter().any(|l| l.path.iter().any(|p| p.contains("__")));
